@@ -166,6 +166,13 @@ def check_product_accepting(ctx, rep, f):
         for s_ in al2:
             atoms['{} in {}'.format(v2, s_)] = b2
             atoms['{} not in {}'.format(v2, s_)] = not b2
+        # a set of states is never equal to a state (the links of an accidental comparison chain `q1 in F1 != q2 in F2`)
+        for s_ in al1 | al2:
+            for v_ in (v1, v2):
+                atoms['{} != {}'.format(s_, v_)] = True
+                atoms['{} != {}'.format(v_, s_)] = True
+                atoms['{} == {}'.format(s_, v_)] = False
+                atoms['{} == {}'.format(v_, s_)] = False
         return atoms
 
     def eval_cond(cond, v1, v2, b1, b2, kind):
@@ -858,3 +865,162 @@ def check_tm_step(ctx, rep, f):
         rep.violates(RULE + '.M6', f, 'def ' + f.name, 'TM step on a tape of length {} with the head at {}: {}'.format(n, head, msg))
     else:
         rep.holds(RULE + '.M6', f, 'def ' + f.name, 'the step agrees with the definition on all {} cases of the finite model (tapes of length 1..3, every head position, present / missing transitions, both directions)'.format(cases))
+
+
+# ---- the alphabet of a construction is the alphabet of its operand(s) ---------------------------------------------------
+
+def check_alphabet_preserved(ctx, rep, funcs, rule='R-ALPHA'):
+    """a construction that returns an automaton for its operand(s) hands on the operand's alphabet -- the declared set
+    X.Sigma (a copy of it, or the union of the operands' alphabets for a binary construction) -- and does not recompute it
+    from the transitions: a symbol that labels no transition is a symbol of the alphabet all the same (the result must be
+    total over it, the checkers compare alphabets)."""
+    n = 0
+    for f in funcs:
+        operands = [p.arg for p in f.pos_params if p.annotation is not None and u(p.annotation).split('.')[-1] in ('DFA', 'NFA', 'PDA', 'GNFA')]
+        if not operands:
+            continue
+
+        def base(x, depth=0):
+            x = resolve_alias(f, x) if x is not None else None
+            while depth < 6:
+                depth += 1
+                if isinstance(x, ast.Call) and isinstance(x.func, ast.Attribute) and x.func.attr == 'copy' and not x.args:
+                    x = resolve_alias(f, x.func.value)
+                elif isinstance(x, ast.Call) and isinstance(x.func, ast.Name) and x.func.id in ('set', 'frozenset') and len(x.args) == 1 and not x.keywords:
+                    x = resolve_alias(f, x.args[0])
+                else:
+                    break
+            return x
+        for cname in ('DFA', 'NFA', 'GNFA'):
+            for c in ctor_call(ctx, f, cname):
+                sig = ctor_arg(ctx, c, cname, 'Sigma')
+                if sig is None:
+                    continue
+                b = base(sig)
+                terms = []
+
+                def split(e):
+                    e = base(e)
+                    if isinstance(e, ast.BinOp) and isinstance(e.op, ast.BitOr):
+                        split(e.left)
+                        split(e.right)
+                    elif isinstance(e, ast.Call) and isinstance(e.func, ast.Attribute) and e.func.attr == 'union' and len(e.args) == 1:
+                        split(e.func.value)
+                        split(e.args[0])
+                    else:
+                        terms.append(e)
+                split(b)
+                n += 1
+                texts = [u(t) for t in terms]
+                want = [o + '.Sigma' for o in operands]
+                if all(t in want for t in texts) and texts:
+                    rep.holds(rule, f, c, 'the result is built over {} (the declared alphabet of the operand{})'.format(' | '.join(texts), 's' if len(texts) > 1 else ''))
+                elif any(isinstance(t, (ast.SetComp, ast.GeneratorExp, ast.ListComp)) and any('delta' in u(g.iter) for g in t.generators) for t in terms):
+                    rep.violates(rule, f, c, 'the alphabet of the result is recomputed from the transitions ({}): a declared symbol that labels no transition is lost, so the result is not an automaton over the alphabet of the operand (not total over it; the checker compares the alphabets)'.format(
+                        u([t for t in terms if isinstance(t, (ast.SetComp, ast.GeneratorExp, ast.ListComp))][0])[:80]))
+                else:
+                    rep.undecided(rule, f, c, 'alphabet argument `{}` is not recognised as the alphabet of an operand'.format(u(b)[:60]))
+    return n
+
+
+# ---- order of the rows of a reconstructed run -------------------------------------------------------------------------------
+
+def check_trace_order(ctx, rep, f, rule='R-MODEL.M8'):
+    """nfa_simulate_word / pda_simulate_word rebuild the run BACKWARDS (the loop walks the word from its last symbol to its
+    first) from chunks: single rows, and epsilon paths, which the path search returns in forward order.  Two ways of
+    assembling them are right: prepend every chunk as it is (rows = chunk + rows), or append every chunk REVERSED and
+    reverse the whole list once at the end.  Appending a forward path and reversing at the end turns every stretch of two or
+    more epsilon moves round; prepending reversed paths does the same; a missing / extra final reversal turns the whole run
+    round.  Decided by an order algebra over the list operations; other shapes are UNDECIDED."""
+    rets = [r for r in walk_no_nested(f.node) if isinstance(r, ast.Return) and r.value is not None and not (isinstance(r.value, ast.Constant) and r.value.value is None)]
+    names = {u(r.value) for r in rets if isinstance(r.value, ast.Name)}
+    final_rev_in_return = False
+    if not names:
+        for r in rets:
+            v = r.value
+            if isinstance(v, ast.Call) and isinstance(v.func, ast.Name) and v.func.id == 'list' and v.args and isinstance(v.args[0], ast.Call) and u(v.args[0].func) == 'reversed' and isinstance(v.args[0].args[0], ast.Name):
+                names.add(v.args[0].args[0].id)
+                final_rev_in_return = True
+            if isinstance(v, ast.Subscript) and isinstance(v.value, ast.Name) and u(v.slice) == '::-1':
+                names.add(v.value.id)
+                final_rev_in_return = True
+    if len(names) != 1:
+        rep.undecided(rule, f, 'def ' + f.name, 'the list that holds the run is not recognised')
+        return 0
+    R = names.pop()
+    loops = [l for l in walk_no_nested(f.node) if isinstance(l, ast.For) and any(isinstance(x, ast.Name) and x.id == R for x in ast.walk(l))]
+    backward = [l for l in loops if (isinstance(l.iter, ast.Call) and u(l.iter.func) == 'reversed') or
+                (isinstance(l.iter, ast.Call) and u(l.iter.func) == 'range' and len(l.iter.args) == 3 and u(l.iter.args[2]).replace(' ', '') == '-1')]
+    if not backward:
+        rep.undecided(rule, f, 'def ' + f.name, 'no backward loop over the word that assembles the run')
+        return 0
+
+    def path_names():
+        out = set()
+        for st in walk_no_nested(f.node):
+            if isinstance(st, ast.Assign) and len(st.targets) == 1 and isinstance(st.targets[0], ast.Name) and isinstance(st.value, ast.Call) and 'path' in (ctx.callee_name(f, st.value) or ''):
+                out.add(st.targets[0].id)
+        return out
+    paths = path_names()
+
+    def orient(x):
+        """'fwd' / 'rev' for a chunk built from an epsilon path, 'one' for a single row, None when not recognised"""
+        if isinstance(x, ast.List) and len(x.elts) == 1:
+            return 'one'
+        if isinstance(x, (ast.ListComp, ast.GeneratorExp)) and len(x.generators) == 1:
+            it = x.generators[0].iter
+            if isinstance(it, ast.Call) and u(it.func) == 'reversed' and it.args and any(isinstance(n, ast.Name) and n.id in paths for n in ast.walk(it.args[0])):
+                return 'rev'
+            if isinstance(it, ast.Subscript) and isinstance(it.value, ast.Name) and it.value.id in paths:
+                sl = it.slice
+                if isinstance(sl, ast.Slice) and sl.step is not None and u(sl.step).replace(' ', '') == '-1':
+                    return 'rev'
+                return 'fwd'
+            if isinstance(it, ast.Name) and it.id in paths:
+                return 'fwd'
+        return None
+    ops = []     # (kind, orientation, stmt): kind in prepend / append / reverse
+    for st in walk_no_nested(f.node):
+        if isinstance(st, ast.Assign) and len(st.targets) == 1 and u(st.targets[0]) == R and isinstance(st.value, ast.BinOp) and isinstance(st.value.op, ast.Add):
+            l, r = st.value.left, st.value.right
+            if u(r) == R:
+                ops.append(('prepend', orient(l), st))
+            elif u(l) == R:
+                ops.append(('append', orient(r), st))
+        if isinstance(st, ast.Expr) and isinstance(st.value, ast.Call) and isinstance(st.value.func, ast.Attribute) and u(st.value.func.value) == R:
+            m = st.value.func.attr
+            if m == 'append':
+                ops.append(('append', 'one', st))
+            elif m == 'extend' and st.value.args:
+                ops.append(('append', orient(st.value.args[0]), st))
+            elif m == 'insert' and len(st.value.args) == 2 and u(st.value.args[0]) == '0':
+                ops.append(('prepend', 'one', st))
+            elif m == 'reverse':
+                ops.append(('reverse', None, st))
+    if not ops:
+        rep.undecided(rule, f, 'def ' + f.name, 'no list operations on the run found')
+        return 0
+    if any(o is None for k, o, s in ops if k != 'reverse'):
+        rep.undecided(rule, f, [s for k, o, s in ops if k != 'reverse' and o is None][0], 'a chunk of the run is not recognised as a row or an epsilon path')
+        return 1
+    kinds = {k for k, o, s in ops if k != 'reverse'}
+    nrev = len([1 for k, o, s in ops if k == 'reverse']) + (1 if final_rev_in_return else 0)
+    if kinds == {'prepend'}:
+        bad = [s for k, o, s in ops if k == 'prepend' and o == 'rev']
+        if bad:
+            rep.violates(rule, f, bad[0], 'the run is assembled by prepending, but this epsilon path is prepended REVERSED: every stretch of two or more consecutive epsilon moves appears in the wrong order, so the run contains steps that are no moves of the automaton')
+        elif nrev % 2 == 1:
+            rep.violates(rule, f, [s for k, o, s in ops if k == 'reverse'][0] if nrev else 'def ' + f.name, 'the run is assembled front-first by prepending and then reversed: it is returned backwards (it does not start in the initial configuration)')
+        else:
+            rep.holds(rule, f, ops[0][2], 'the run is assembled by prepending forward chunks while the word is walked backwards: rows come out in the order of the computation')
+    elif kinds == {'append'}:
+        bad = [s for k, o, s in ops if k == 'append' and o == 'fwd']
+        if bad:
+            rep.violates(rule, f, bad[0], 'the run is collected back to front and reversed at the end, but this epsilon path is appended in FORWARD order: after the final reversal every stretch of two or more consecutive epsilon moves is the wrong way round, so the run contains steps that are no moves of the automaton (and need not start in the initial configuration)')
+        elif nrev % 2 == 0:
+            rep.violates(rule, f, ops[-1][2], 'the run is collected back to front (appending while the word is walked backwards) but never reversed: it is returned backwards')
+        else:
+            rep.holds(rule, f, ops[0][2], 'the run is collected back to front with every epsilon path reversed, and reversed once at the end')
+    else:
+        rep.undecided(rule, f, ops[0][2], 'the run is assembled by a mixture of prepending and appending')
+    return 1
